@@ -166,11 +166,11 @@ func (e *Env) lookupConst(pkg *types.Package, name string) (Val, types.Type, boo
 
 func (e *Env) loadState() *State {
 	// loads read e.st's heap; typing facts of loaded values go to e.facts
-	if e.facts == nil || e.facts == e.st {
+	if e.facts == nil {
 		return e.st
 	}
 	if e.shim == nil {
-		e.shim = &State{heap: e.st.heap, cellVals: e.st.cellVals, alloc: e.st.alloc, alloc0: e.st.alloc0, events: e.st.events}
+		e.shim = &State{heap: e.st.heap, cellVals: e.st.cellVals, alloc: e.st.alloc, alloc0: e.st.alloc0, events: e.st.events, iters: e.st.iters, nonnil: map[string]bool{}}
 	}
 	return e.shim
 }
@@ -178,6 +178,9 @@ func (e *Env) loadState() *State {
 func (e *Env) flush() {
 	if e.shim != nil && e.facts != nil {
 		for _, f := range e.shim.facts {
+			if mentionsBound(f) {
+				continue // typing facts about a quantified variable's element are not global facts
+			}
 			e.facts.assumeDef(f)
 		}
 		e.shim.facts = nil
